@@ -20,7 +20,7 @@ func (timeoutErr) Timeout() bool   { return true }
 func (timeoutErr) Temporary() bool { return true }
 
 type counters struct {
-	reads, zero, timeouts, eofs, writes, wbytes int64
+	reads, zero, timeouts, eofs, writes, wbytes, wtimeouts int64
 }
 
 type memConn struct {
@@ -40,10 +40,14 @@ type memConn struct {
 	pauseAt   int
 	pause     time.Duration
 	delivered int
+	// a peer that stops READING: it takes room more bytes (room < 0: it keeps reading), after
+	// that a Write blocks until the write deadline (none set: for ever) or Close
+	room      int64
+	wdeadline time.Time
 }
 
 func newMemConn(l, r net.Addr, segs [][]byte, end string) *memConn {
-	c := &memConn{L: l, R: r, end: end, closed: make(chan struct{}), drained: make(chan struct{}), pauseAt: -1}
+	c := &memConn{L: l, R: r, end: end, closed: make(chan struct{}), drained: make(chan struct{}), pauseAt: -1, room: -1}
 	for _, s := range segs {
 		c.segs = append(c.segs, append([]byte{}, s...))
 	}
@@ -110,10 +114,36 @@ func (c *memConn) Read(p []byte) (int, error) {
 func (c *memConn) Write(p []byte) (int, error) {
 	atomic.AddInt64(&c.cnt.writes, 1)
 	atomic.AddInt64(&c.cnt.wbytes, int64(len(p)))
-	if c.onWrite != nil {
-		c.onWrite(p)
+	c.mu.Lock()
+	room, dl := c.room, c.wdeadline
+	if room >= 0 && int64(len(p)) > room {
+		c.room = 0
+	} else if room >= 0 {
+		c.room -= int64(len(p))
 	}
-	return len(p), nil
+	c.mu.Unlock()
+	if room < 0 || int64(len(p)) <= room {
+		if c.onWrite != nil {
+			c.onWrite(p)
+		}
+		return len(p), nil
+	}
+	if c.onWrite != nil && room > 0 {
+		c.onWrite(p[:room])
+	}
+	var t <-chan time.Time
+	if !dl.IsZero() {
+		tm := time.NewTimer(time.Until(dl))
+		defer tm.Stop()
+		t = tm.C
+	}
+	select {
+	case <-t:
+		atomic.AddInt64(&c.cnt.wtimeouts, 1)
+		return int(room), timeoutErr{}
+	case <-c.closed:
+		return int(room), io.ErrClosedPipe
+	}
 }
 
 func (c *memConn) Close() error {
@@ -124,12 +154,22 @@ func (c *memConn) LocalAddr() net.Addr  { return c.L }
 func (c *memConn) RemoteAddr() net.Addr { return c.R }
 func (c *memConn) SetDeadline(t time.Time) error {
 	c.mu.Lock()
+	c.deadline, c.wdeadline = t, t
+	c.mu.Unlock()
+	return nil
+}
+func (c *memConn) SetReadDeadline(t time.Time) error {
+	c.mu.Lock()
 	c.deadline = t
 	c.mu.Unlock()
 	return nil
 }
-func (c *memConn) SetReadDeadline(t time.Time) error  { return c.SetDeadline(t) }
-func (c *memConn) SetWriteDeadline(t time.Time) error { return nil }
+func (c *memConn) SetWriteDeadline(t time.Time) error {
+	c.mu.Lock()
+	c.wdeadline = t
+	c.mu.Unlock()
+	return nil
+}
 
 // udpMeter counts on top of the real listener.DummyUDPConn.
 type udpMeter struct {
